@@ -17,7 +17,7 @@ from ..ctx import CTX, InjectedFault, RunTooBig, py_depth
 from ..history import History, canon, canon_outcome, digest, same
 from ..rng import Streams, chance, pick, weighted
 from ..sim import apply_op, form_of, build_sim, locations, preload, readable, stack_state, watch_calls, watch_spirals
-from ..world import gen_inputs, gen_request, gen_situation, gen_world, wide_knob
+from ..world import gen_chain_world, gen_inputs, gen_request, gen_situation, gen_world, wide_knob
 from . import Result
 from .c17 import trace_nodes_match
 
@@ -84,14 +84,20 @@ BAD_PERIOD = {"month": "2018", "year": "2018-01", "day": "day:2018-01-01:2", "we
 def generate(seed: int, tier: str) -> dict:
     st = Streams(seed)
     wr = st["world"]
-    profile = weighted(wr, [("acyclic", 5), ("spiral", 3), ("cyclic", 2)])
-    world = gen_world(
-        wr,
-        discipline=profile,
-        n_vars=wr.randint(3, 8 if tier == "quick" else 12),
-        max_depth=2,
-        wide=wide_knob(wr, tier, 0.12),
-    )
+    profile = weighted(wr, [("acyclic", 5), ("spiral", 2.5), ("cyclic", 2), ("chain", 1)])
+    if profile == "chain":
+        # the textbook quasi-circular shape (C02's chain worlds): failures strike while
+        # spiral-tainted values sit in the cache
+        world = gen_chain_world(wr)
+        profile = "spiral"
+    else:
+        world = gen_world(
+            wr,
+            discipline=profile,
+            n_vars=wr.randint(3, 8 if tier == "quick" else 12),
+            max_depth=2,
+            wide=wide_knob(wr, tier, 0.12),
+        )
     ir = st["inputs"]
     situation = gen_situation(ir, world, max_persons=4)
     inputs = gen_inputs(ir, world, p=0.4)
